@@ -144,7 +144,15 @@ class Real(Type):
         elif data == 0.0:
             data = '0'
         else:
-            data = '{}E0'.format(data)
+            data = str(data)
+
+            if 'e' in data:
+                # Python uses the exponent form for small and large
+                # numbers, as in 1e-07.
+                mantissa, exponent = data.split('e')
+                data = '{}E{}'.format(mantissa, int(exponent))
+            else:
+                data += 'E0'
 
         return data
 
